@@ -100,9 +100,13 @@ Section Proposal.
 
   (** Content of an ExtendedCommitInfo item: it decodes (as an
       ExtendedCommitInfoWithCurrencyPairMapping) and passes ProposalHandler::validate_proposal; it
-      decodes but is refused by validate_proposal; or it does not decode.  The item holding empty
-      bytes that prepare_proposal falls back to is of the third kind: the `extended_commit_info`
-      field of the decoded message is unset (astria-core protocol/price_feed.rs try_from_raw). *)
+      decodes but is refused by validate_proposal; or it does not decode (for instance an item
+      holding empty bytes: the `extended_commit_info` field of the decoded message is unset,
+      astria-core protocol/price_feed.rs try_from_raw).
+      The item prepare_proposal falls back to when the extended commit info does not fit,
+      the encoding of ExtendedCommitInfoWithCurrencyPairMapping::empty(round) for the round of the
+      local last commit, is of the first kind: it decodes, and validate_proposal accepts an
+      extended commit info without votes whose round is that of the proposed last commit. *)
   Inductive eci_quality := EciGood | EciInvalid | EciUndecodable.
 
   (** The injected data items. *)
@@ -129,7 +133,8 @@ Section Proposal.
     e_typed : bool;                    (* uses_data_item_enum(height) *)
     e_upgrade : option (N * N);        (* upgrade activating at this height: (encoded length, hashes) *)
     e_eci : option (N * N) }.          (* vote extensions enabled: (length of the encoded extended
-                                          commit info item, length of the empty fallback item) *)
+                                          commit info item, length of the encoded item holding
+                                          the empty extended commit info of the same round) *)
 
   (* ---------------------------------------------------------------------------------------- *)
   (** ** The shared per-transaction step (proposal_checks_and_tx_execution) *)
@@ -225,7 +230,7 @@ Section Proposal.
       match comet_checked_add c len with
       | Some c' => Some (c', [EItem (IEci len EciGood)])
       | None => match comet_checked_add c empty_len with
-                | Some c' => Some (c', [EItem (IEci empty_len EciUndecodable)])
+                | Some c' => Some (c', [EItem (IEci empty_len EciGood)])
                 | None => None
                 end
       end
